@@ -89,8 +89,12 @@ def _branch(d, depth, sp, cond_like=False):
         x = ['c', d.choice([10, 20, 'yes', 'no', 2.5, True, False])]
     elif k < 3:
         x = ['r', d.choice(['A4', 'A5', 'D1', 'D3', 'A1'])]
-    elif k < 5:
+    elif k < 4:
         x = ['poison', d.choice(POISONS)]
+    elif k < 5:
+        # an error LITERAL is a value like any other when unselected
+        x = ['e', d.choice(['#N/A', '#DIV/0!', '#REF!', '#VALUE!', '#NUM!',
+                            '#NAME?', '#NULL!'])]
     elif k < 7 and depth > 0:
         x = _if(d, depth - 1, sp, cond_branches=cond_like)
     elif k < 8 and depth > 0:
@@ -134,13 +138,19 @@ def budget(tier):
 def enumerate_cases(tier, shard=0, nshards=1):
     out = []
     conds = [['c', v] for v in CONDS] + [['r', 'A6'], ['r', 'A1'],
-                                         ['r', 'A2'], ['r', 'A3']]
+                                         ['r', 'A2'], ['r', 'A3'],
+                                         ['e', '#N/A'], ['e', '#VALUE!']]
     for c in conds:
         for p in POISONS:
             out.append({'tree': ['IF', c, ['spy', 1, ['c', 10]],
                                  ['spy', 2, ['poison', p]]]})
             out.append({'tree': ['IF', c, ['spy', 1, ['poison', p]],
                                  ['spy', 2, ['c', 20]]]})
+        for code in ('#N/A', '#REF!', '#DIV/0!'):
+            out.append({'tree': ['IF', c, ['c', 10], ['e', code]]})
+            out.append({'tree': ['IF', c, ['e', code], ['c', 20]]})
+            out.append({'tree': ['IF', c, ['spy', 1, ['c', 10]],
+                                 ['spy', 2, ['e', code]]]})
         out.append({'tree': ['IF', c, ['spy', 1, ['c', 5]], None]})
         out.append({'tree': ['IF', c, ['c', 5], None]})
         out.append({'tree': ['NOT', c]})
@@ -163,6 +173,8 @@ def render(t):
     k = t[0]
     if k == 'c':
         return lit(t[1])
+    if k == 'e':
+        return t[1]
     if k in ('r', 'rng'):
         return t[1]
     if k == 'cmp':
@@ -230,6 +242,8 @@ def ref_eval(t, log, must, mustnot):
     k = t[0]
     if k == 'c':
         return t[1]
+    if k == 'e':
+        return Err(t[1])
     if k == 'r':
         return CELLS.get(t[1])
     if k == 'rng':
